@@ -217,14 +217,20 @@ MergeOp(P, raises) == IF Len(P.v) = 0 THEN P
                       ELSE IF raises /\ Len(P.e) = 0 THEN Verify(P)   \* self.scale verified the cache, then bounds raised
                       ELSE MergeCore(DoRead(P, "bounds").path)
 
-\* remove_unreferenced_vertices: reads referenced_vertices (cached), re-points, shortens
-UnrefOp(P) ==
-    LET Q    == DoRead(P, "refd").path
-        refs == SortedSeq(RefdOf(Q))
-    IN [Q EXCEPT !.v = [j \in 1..Len(refs) |-> Q.v[refs[j]]],
-                 !.e = [i \in 1..Len(Q.e) |->
-                          IF MutUnrefNoRemap THEN Q.e[i]
-                          ELSE [Q.e[i] EXCEPT !.p = [j \in 1..Len(Q.e[i].p) |-> PosIn(refs, Q.e[i].p[j])]]]]
+\* remove_unreferenced_vertices: takes referenced_vertices from the cache (verify, then stored value or compute),
+\* builds mask = -1 everywhere except the referenced indices, re-points, shortens.  With a current cache the
+\* stored value is RefdOf; a stale value marked current (see ProcessOp) makes it index out of range (IndexError,
+\* nothing changed yet) or keep the wrong vertices.  0 stands for the -1 of an index the mask does not know.
+UnrefWith(Q, R) ==
+    LET refs == SortedSeq(R) IN
+    [Q EXCEPT !.v = [j \in 1..Len(refs) |-> Q.v[refs[j]]],
+              !.e = [i \in 1..Len(Q.e) |->
+                       IF MutUnrefNoRemap THEN Q.e[i]
+                       ELSE [Q.e[i] EXCEPT !.p = [j \in 1..Len(Q.e[i].p) |->
+                                                    IF Q.e[i].p[j] \in R THEN PosIn(refs, Q.e[i].p[j]) ELSE 0]]]]
+UnrefRaises(P) == ~(DoRead(P, "refd").val \subseteq 1..Len(P.v))
+UnrefOp(P) == LET r == DoRead(P, "refd") IN IF UnrefRaises(P) THEN r.path ELSE UnrefWith(r.path, r.val)
+UnrefFresh(P) == LET Q == DoRead(Verify(P), "refd").path IN UnrefWith(Q, RefdOf(Q))
 
 \* process: merge_vertices, remove_duplicate_entities, remove_unreferenced_vertices inside the cache lock;
 \* the cache is emptied and marked current when the lock is left
@@ -234,7 +240,7 @@ ProcRaises(P) == DevEmptyRaises /\ Len(P.v) > 0 /\ Len(P.e) = 0 /\ P.c["bounds"]
 ProcessOp(P, raises, loops) ==
     IF raises /\ Len(P.v) > 0 /\ Len(P.e) = 0 /\ P.c["bounds"] = <<>>
     THEN [P EXCEPT !.ck = Key(P)]      \* the exception leaves the lock: Cache.__exit__ marks whatever is stored as current
-    ELSE LET Q == UnrefOp(DedupeOp(MergeOp(P, FALSE), loops)) IN [Q EXCEPT !.c = EmptyC, !.ck = Key(Q)]
+    ELSE LET Q == UnrefFresh(DedupeOp(MergeOp(P, FALSE), loops)) IN [Q EXCEPT !.c = EmptyC, !.ck = Key(Q)]
 
 \* replace_vertex_references(mask): points := mask[points]
 ReplaceOp(P, m) == WithE(P, [i \in 1..Len(P.e) |-> [P.e[i] EXCEPT !.p = [j \in 1..Len(P.e[i].p) |-> m[P.e[i].p[j]]]]])
@@ -351,7 +357,10 @@ CleanStep(op, pA, pI, dev, raised, classes) ==
     /\ want' = want
     /\ last' = [k |-> Nil, val |-> Nil, ref |-> Nil, exc |-> raised, op |-> op]
     /\ Log([op |-> op, st |-> Snap(pA), ist |-> Intended(pI, pA, raised), dev |-> DevIf(pI, pA, dev, raised),
-             exc |-> raised, classes |-> classes])
+             exc |-> raised, classes |-> classes,
+             \* process() on a path without entities raises or not depending on what the unverified cache holds,
+             \* which in turn depends on whether merge_vertices happened to reorder the vertices (not modelled)
+             noent |-> DevEmptyRaises /\ Len(cur.v) > 0 /\ Len(cur.e) = 0])
 
 RemoveEntities(S) ==
     /\ "remove" \in Ops /\ S \subseteq 1..Len(cur.e)
@@ -365,7 +374,7 @@ RemoveDup == "clean" \in Ops /\ CleanStep("dedupe", DedupeOp(cur, ~DevLoopRevNot
                                           "ClosedLoopReverseNotDuplicate", FALSE, DupClasses(cur))
 Merge   == "clean" \in Ops /\ CleanStep("merge", MergeOp(cur, DevEmptyRaises), MergeOp(cur, FALSE),
                                         "EmptyPathScaleRaises", MergeRaises(cur), {})
-Unref   == "clean" \in Ops /\ CleanStep("unref", UnrefOp(cur), UnrefOp(cur), Nil, FALSE, {})
+Unref   == "clean" \in Ops /\ CleanStep("unref", UnrefOp(cur), UnrefFresh(cur), "EmptyPathScaleRaises", UnrefRaises(cur), {})
 Process == /\ "clean" \in Ops
            /\ LET pA == ProcessOp(cur, DevEmptyRaises, ~DevLoopRevNotDup)  pI == ProcessOp(cur, FALSE, TRUE) IN
               CleanStep("process", pA, pI,
@@ -388,10 +397,10 @@ Reindex == /\ "mask" \in Ops /\ Len(cur.v) > 1
            /\ LET perm == Rev([i \in 1..Len(cur.v) |-> i])  pA == ReindexOp(cur, perm) IN
               /\ cur' = pA /\ want' = want /\ UNCHANGED <<stash, wantS, nuid>> /\ Quiet
               /\ Log([op |-> "reindex", perm |-> perm, st |-> Snap(pA), ist |-> <<>>, dev |-> <<>>, exc |-> FALSE])
-Flip(i)    == /\ "dir" \in Ops /\ i \in 1..Len(cur.e)
+Flip(i)    == /\ "flip" \in Ops /\ i \in 1..Len(cur.e)
               /\ cur' = FlipOp(cur, i) /\ want' = want /\ UNCHANGED <<stash, wantS, nuid>> /\ Quiet
               /\ Log([op |-> "flip", i |-> i, st |-> Snap(FlipOp(cur, i)), ist |-> <<>>, dev |-> <<>>, exc |-> FALSE])
-Reverse(i) == /\ "dir" \in Ops /\ i \in 1..Len(cur.e) /\ cur.e[i].d = 1
+Reverse(i) == /\ "reverse" \in Ops /\ i \in 1..Len(cur.e) /\ cur.e[i].d = 1
               /\ cur' = ReverseOp(cur, i) /\ want' = want /\ UNCHANGED <<stash, wantS, nuid>> /\ Quiet
               /\ Log([op |-> "reverse", i |-> i, st |-> Snap(ReverseOp(cur, i)), ist |-> <<>>, dev |-> <<>>, exc |-> FALSE])
 \* explode one entity (Line.explode + entities setter) or all of them (Path.explode, which clears the cache)
@@ -481,10 +490,11 @@ CacheCoherent == \A P \in Paths : P.ck = Key(P) => \A k \in CKeys : P.c[k] # <<>
 EmitRec  == [h |-> hist, fin |-> Sweep(cur), sfin |-> Sweep(stash), sst |-> Snap(stash)]
 EmitAll  == PrintT(ToJson(EmitRec))
 EmitLeaf == (Len(hist) = MaxDepth + 1) => PrintT(ToJson(EmitRec))
-OpsAll == {"remove", "clean", "mask", "dir", "explode", "transform", "copy", "concat", "read"}
-OpsNoDir == OpsAll \ {"dir"}
-OpsDir   == {"dir", "clean", "explode", "read"}
+OpsAll == {"remove", "clean", "mask", "flip", "reverse", "explode", "transform", "copy", "concat", "read"}
 OpsCore  == {"remove", "clean", "read", "copy", "mask"}
+OpsG1    == {"remove", "clean", "mask", "read"}
+OpsG2    == {"clean", "explode", "flip", "read"}
+OpsG3    == {"clean", "copy", "concat", "transform", "read"}
 OpsRead  == {"read"}
 OpsExplode == {"explode", "read"}
 OpsClean == {"remove", "clean", "read"}
